@@ -33,6 +33,11 @@ CLAIMS = {
                 text="ff constants satisfy their defining relations incl. generator of full order (factorisation of l-1 verified) and the Tonelli-Shanks exponent literal; from_repr = canonical decoder; from_repr_vartime: high-bit test and equality with reduce dominate Some; "
                      "Field::invert None only for zero; GroupEncoding for EdwardsPoint/SubgroupPoint = native decoder (+ into_subgroup); into_subgroup flag = torsion-free predicate; clear_cofactor = x8; SubgroupPoint constructors inventory. sqrt correctness on all residues is delegated to ff's helper (trusted)",
                 note="partial for behaviour, complete for the constants", ref="3.1, 3.6, 4 C17"),
+    "C11": dict(cat="proof", tech="interval abstract interpretation of checked-mode MIR with inductive limb-bound type invariants (ABSINT engine)",
+                text="Serial u64 and u32 backends: every Assert(overflow / bounds / division) terminator, debug assertion and panicking call reachable from every exported function of curve25519-dalek (roots discovered, >=250 per backend, parameters at their type's limb-bound invariant) "
+                     "and from the field kernels under their documented precondition is shown unreachable by a sound interval analysis; every value of an invariant-carrying type produced by a root re-establishes the invariant (so chains of operations are covered inductively). "
+                     "Residuals are two reviewed obligations (non-zero product in batch_invert; oddness of NAF digits) and assumptions A1-A4. Vector (AVX2/IFMA) and fiat kernels are not yet covered by the quick tier (see DESIGN.md)",
+                note="sound-by-construction interval domain over the compiler's checked-mode MIR; trusted: exporter, interpreter + library models, assumptions A1-A4 listed in the evidence", ref="3.2, 4 C11"),
     "C12": dict(cat="proof", tech="exhaustive comparison of compiler-evaluated constants with an independent big-integer oracle (static: no repository code run)",
                 text="Every const/static of the three crates (field, scalar, point, table, vector-lane and ff constants), as evaluated by rustc and decoded by type layout, "
                      "equals its mathematical definition; exhaustive over all 2x(256+64) serial and 64(+64) vector table entries and every limb representation; quick = simd(u64+AVX2)+u32, thorough = all 8 configurations",
@@ -55,7 +60,13 @@ CLAIMS = {
                 note="partial/structural; serde derive output and format crates trusted", ref="3.6, 4 C16"),
 }
 
-NA_REASON = "check not built yet in this round (engine under construction; see DESIGN.md section 8)"
+NA_REASON = {
+    "C01": "value-level: exactness of field arithmetic mod p over all 2^510 input pairs is a statement about numerical results; no sound static argument in reach decides it (interval analysis bounds limbs - that part is C11's - but not values mod p). See DESIGN.md",
+    "C02": "value-level: exact arithmetic mod l for all inputs (Montgomery reduction, Karatsuba) quantifies over runtime values; intervals prove absence of overflow (C11) but not equality mod l. See DESIGN.md",
+    "C04": "value-level: equality of each algorithm's output with sum s_i*P_i is a group-arithmetic identity over all inputs; only digit-range side conditions are statically decidable and they are decided inside C11. See DESIGN.md",
+    "C05": "cross-configuration byte equality of outputs for all inputs is a relational value-level property; static agreement of sibling implementations cannot establish equality of numerical results. See DESIGN.md",
+    "C15": "PANIC engine inventory exists (props/C15.py) but 164 panic edges are not yet discharged statically; not claimed until the residual table is reviewed. See DESIGN.md",
+}
 
 m = {
     "version": 1,
@@ -71,6 +82,7 @@ m = {
         {"name": "mirfacts", "path": "mirfacts/", "serves_properties": sorted(CLAIMS), "kind_free_text": "rustc_private driver: exports resolved MIR, ADTs, impls and const-evaluated constants per crate and configuration"},
         {"name": "CONSTS", "path": "lib/eng_consts.py", "serves_properties": ["C12", "C17"], "kind_free_text": "constants vs big-integer oracle"},
         {"name": "TAINT/ZEROIZE", "path": "lib/eng_taint.py props/C14.py", "serves_properties": ["C10", "C14"], "kind_free_text": "interprocedural taint with transfer summaries and points-to; drop/zeroize field coverage; heap typestate"},
+        {"name": "ABSINT", "path": "lib/absint.py lib/absint_models.py lib/eng_absint.py", "serves_properties": ["C11"], "kind_free_text": "interval abstract interpreter over checked-mode MIR with inductive type invariants"},
         {"name": "PATH", "path": "lib/mirlib.py lib/pathlib2.py lib/ex.py", "serves_properties": [p for p in ["C03", "C06", "C07", "C08", "C09", "C13", "C16", "C17"] if p in CLAIMS],
          "kind_free_text": "dominance (edge-removal reachability), value-flow slices, expression trees, ORDER, guard implication"},
     ],
@@ -94,6 +106,6 @@ for p in props:
             "technique": c["tech"],
         })
     else:
-        m["not_applicable"].append({"property_id": pid, "reason": NA_REASON})
+        m["not_applicable"].append({"property_id": pid, "reason": NA_REASON[pid]})
 json.dump(m, open(V + "/MANIFEST.json", "w"), indent=1)
 print("claimed:", sorted(CLAIMS), "n/a:", [x["property_id"] for x in m["not_applicable"]])
